@@ -89,9 +89,23 @@ func (r httpReq) do(h http.Handler) *httptest.ResponseRecorder {
 		req.Header.Set("Content-Type", "application/json")
 	}
 	rec := httptest.NewRecorder()
-	h.ServeHTTP(rec, req)
-	return rec
+	done := make(chan struct{})
+	go func() {
+		defer close(done)
+		h.ServeHTTP(rec, req)
+	}()
+	select {
+	case <-done:
+		return rec
+	case <-time.After(requestWatchdog):
+		// an in-memory request that has not been answered after a minute is blocked (e.g. on a lock nobody will release)
+		hung := httptest.NewRecorder()
+		hung.Code = -2
+		return hung
+	}
 }
+
+const requestWatchdog = 60 * time.Second
 
 // ---------------------------------------------------------------- seeded deployment
 
@@ -131,6 +145,10 @@ func newAPIWorld(t T, st *stats.Collector) *apiWorld {
 		w.harness("seeding revert failed: %v", out.Err)
 	} else {
 		a.txIDs = append(a.txIDs, *out.Tx.ID)
+	}
+	// a pristine ledger, target of the import route
+	if err := w.Env.CreateLedger(w.Ctx, "imp", "b2", features.DefaultFeatures); err != nil {
+		w.harness("CreateLedger(imp): %v", err)
 	}
 	a.router = w.Env.Router()
 	// schema through the API itself (also proves the seed request shapes are accepted)
@@ -431,7 +449,15 @@ func (a *apiWorld) genValid(t *rapid.T) httpReq {
 		r.Method, r.Path = "POST", base+"/logs/export"
 	case "v2 POST /logs/import":
 		r.Method, r.Path, r.Write, r.Partial = "POST", "/v2/imp/logs/import", true, true
-		r.Body = []byte(`{"type":"NEW_TRANSACTION","data":{"transaction":{"postings":[{"source":"world","destination":"bank","amount":5,"asset":"USD/2"}],"metadata":{},"timestamp":"2023-01-01T00:00:00Z","id":1,"reverted":false,"insertedAt":"2023-01-01T00:00:00Z","updatedAt":"2023-01-01T00:00:00Z"},"accountMetadata":{}},"date":"2023-01-01T00:00:00Z","idempotencyKey":"","id":1,"hash":null}` + "\n")
+		logs := []string{
+			`{"type":"NEW_TRANSACTION","data":{"transaction":{"postings":[{"source":"world","destination":"bank","amount":5,"asset":"USD/2"}],"metadata":{},"timestamp":"2023-01-01T00:00:00Z","id":1,"reverted":false,"insertedAt":"2023-01-01T00:00:00Z","updatedAt":"2023-01-01T00:00:00Z"},"accountMetadata":{}},"date":"2023-01-01T00:00:00Z","idempotencyKey":"","id":1,"hash":null}`,
+			`{"type":"SET_METADATA","data":{"targetType":"ACCOUNT","targetId":"bank","metadata":{"k":"v"}},"date":"2023-01-01T00:00:01Z","idempotencyKey":"","id":2,"hash":null}`,
+			`{"type":"SET_METADATA","data":{"targetType":"TRANSACTION","targetId":1,"metadata":{"k":"v"}},"date":"2023-01-01T00:00:02Z","idempotencyKey":"","id":3,"hash":null}`,
+			`{"type":"DELETE_METADATA","data":{"targetType":"ACCOUNT","targetId":"bank","key":"k"},"date":"2023-01-01T00:00:03Z","idempotencyKey":"","id":4,"hash":null}`,
+			`{"type":"REVERTED_TRANSACTION","data":{"revertedTransaction":{"postings":[{"source":"world","destination":"bank","amount":5,"asset":"USD/2"}],"metadata":{},"timestamp":"2023-01-01T00:00:00Z","id":1,"reverted":true,"revertedAt":"2023-01-01T00:00:04Z","insertedAt":"2023-01-01T00:00:00Z","updatedAt":"2023-01-01T00:00:04Z"},"transaction":{"postings":[{"source":"bank","destination":"world","amount":5,"asset":"USD/2"}],"metadata":{"com.formance.spec/state/reverts":"1"},"timestamp":"2023-01-01T00:00:04Z","id":2,"reverted":false,"insertedAt":"2023-01-01T00:00:04Z","updatedAt":"2023-01-01T00:00:04Z"}},"date":"2023-01-01T00:00:04Z","idempotencyKey":"","id":5,"hash":null}`,
+		}
+		// one log per request (so that JSON-node mutations apply to it); the ledger accepts them in order only
+		r.Body = []byte(logs[rapid.IntRange(0, len(logs)-1).Draw(t, "importLog")] + "\n")
 	case "v2 POST /_bulk":
 		r.Method, r.Path, r.Write, r.Partial = "POST", base+"/_bulk", true, true
 		n := rapid.IntRange(1, 3).Draw(t, "bulkSize")
@@ -984,6 +1010,9 @@ func (a *apiWorld) judge(r httpReq) apiVerdict {
 	body := rec.Body.Bytes()
 	ct := rec.Header().Get("Content-Type")
 	switch {
+	case rec.Code == -2:
+		v.Problem = fmt.Sprintf("no response within %s: the request hangs", requestWatchdog)
+		return v
 	case rec.Code >= 500:
 		v.Problem = fmt.Sprintf("HTTP %d (body %q): a server error in answer to a client request", rec.Code, truncate(string(body), 200))
 		return v
@@ -1097,6 +1126,14 @@ func c38Pinned() string {
 		{httpReq{Route: "v2 GET /transactions", Method: "GET", Path: "/v2/l1/transactions"}, 2},
 		{httpReq{Route: "v2 POST /transactions/{id}/metadata", Method: "POST", Path: "/v2/l1/transactions/1/metadata", Write: true, Body: []byte(`null`)}, 0},
 		{httpReq{Route: "v2 GET /transactions", Method: "GET", Path: "/v2/l1/transactions"}, 2},
+		{httpReq{Route: "v2 POST /logs/import", Method: "POST", Path: "/v2/imp/logs/import", Write: true, Partial: true, Body: []byte(`{"type":"NOPE","data":{},"id":1}`)}, 4},
+		{httpReq{Route: "v2 POST /logs/import", Method: "POST", Path: "/v2/imp/logs/import", Write: true, Partial: true, Body: []byte(`{"type":"SET_METADATA","data":{"targetType":"X","targetId":1,"metadata":{}},"id":1}`)}, 4},
+		{httpReq{Route: "v2 POST /logs/import", Method: "POST", Path: "/v2/imp/logs/import", Write: true, Partial: true, Body: []byte(`{"type":"NEW_TRANSACTION","data":null,"id":1}`)}, 4},
+		{httpReq{Route: "v2 POST /logs/import", Method: "POST", Path: "/v2/imp/logs/import", Write: true, Partial: true, Body: []byte(`{"type":"NEW_TRANSACTION","data":{"transaction":{"postings":[]},"accountMetadata":{}}}`)}, 4},
+		{httpReq{Route: "v2 POST /logs/import", Method: "POST", Path: "/v2/imp/logs/import", Write: true, Partial: true, Body: []byte(`{"type":"SET_METADATA","data":{"targetType":"TRANSACTION","targetId":1,"metadata":{"k":"v"}},"date":"2023-01-01T00:00:02Z","idempotencyKey":"","id":3,"hash":null}`)}, 4},
+		{httpReq{Route: "v2 POST /logs/import", Method: "POST", Path: "/v2/imp/logs/import", Write: true, Partial: true, Body: []byte(`{"script":{"plain":"send"}}`)}, 4},
+		// the malformed stream above must not leave the ledger locked: its first write has to be answered
+		{httpReq{Route: "v2 POST /transactions", Method: "POST", Path: "/v2/imp/transactions", Write: true, Body: []byte(`{"postings":[{"source":"world","destination":"bank","asset":"USD/2","amount":1}]}`)}, 2},
 		{httpReq{Route: "v1 POST /transactions/{id}/metadata", Method: "POST", Path: "/l1/transactions/1/metadata", Write: true, Headers: map[string]string{"Idempotency-Key": "pin1"}, Body: []byte(`{"a":"b"}`)}, 2},
 		{httpReq{Route: "v1 POST /transactions/{id}/revert", Method: "POST", Path: "/l1/transactions/1/revert", Write: true, Headers: map[string]string{"Idempotency-Key": "pin1"}}, 4},
 	}
@@ -1138,7 +1175,7 @@ func TestC38(t *testing.T) {
 	if problem := c38Pinned(); problem != "" {
 		t.Fatalf("VIOLATION[C38] (pinned request): %s", problem)
 	}
-	st.Set("pinned_requests", 23)
+	st.Set("pinned_requests", 30)
 	if known.IsOpen(FindingAPIBalanceNoAsset) && reproduceAPIBalanceNoAsset() {
 		fmt.Println(known.Line(FindingAPIBalanceNoAsset))
 		st.Known(known.Line(FindingAPIBalanceNoAsset))
